@@ -234,7 +234,7 @@ Proof.
   - pose proof (fifo_issue st c KInfo (fun rid => RInfo rid u)
        (EInfo c (st_next st) (Some E_NOTCONN) 0 None false) I (fun _ => eq_refl)) as H.
     destruct (issue _ _ _ _ _); exact H.
-  - pose proof (fifo_issue st c KSet (fun rid => RPatch rid u) (EDone c (st_next st) (Some E_NOTCONN)) I (fun _ => eq_refl)) as H.
+  - pose proof (fifo_issue st c KSet (fun rid => ROpq rid kd u) (EDone c (st_next st) (Some E_NOTCONN)) I (fun _ => eq_refl)) as H.
     destruct (issue _ _ _ _ _); exact H.
   - apply (fifo_same st); try reflexivity; try exact I.
     intros y. cbn. unfold updf. destruct (y =? c) eqn:E; [apply N.eqb_eq in E; subst|]; reflexivity.
